@@ -76,7 +76,12 @@ def name_epoch(name, host=None, pid=None):
     if host is not None and (m.group(7) != host or m.group(8) != pid):
         return None
     y, mo, d, h, mi, s = [int(m.group(i)) for i in range(1, 7)]
-    return calendar.timegm((y, mo, d, h, mi, s, 0, 0, 0))
+    if not (1 <= mo <= 12 and 1 <= d <= 31 and h <= 23 and mi <= 59 and s <= 60):
+        return None              # not a date: the name does not carry %Y%m%d-%H%M%S of anything
+    try:
+        return calendar.timegm((y, mo, d, h, mi, s, 0, 0, 0))
+    except (ValueError, OverflowError):
+        return None
 
 
 def canon_impl(lines):
@@ -901,8 +906,9 @@ def run(chk, replay=None):
                 "translator lib/gen_consts.py / lib/gen_C16.py (clang 14 JSON AST): kRollPerSeconds_, kLargeBuffer, kSmallBuffer, the literals 25/2/2 of threadFunc, "
                 "the shape facts 'push of currentBuffer_, swap of buffers_, output.append follow the while loop in this order', the comparison operators of "
                 "AsyncLogging::append / FixedBuffer::append / LogFile::rollFile, the default constructor arguments, the shape of AppendFile::append's loop",
-                "environment contract of C16_file_names_increase: strftime('.%Y%m%d-%H%M%S.') over gmtime_r has a fixed width and grows lexicographically with the "
-                "second (four-digit years); checked on every produced file name by the oracle (name <-> second, name order = creation order)",
+                "C16_NamesModel.stamp = fixed-width decimal fields of C20's break_utc stands for strftime('.%Y%m%d-%H%M%S.') over gmtime_r: compared with the real file "
+                "name of every produced file (differential) and, independently, name <-> second by Python's calendar (oracle)",
+                "coq/Conc_Model.v, Conc_Proofs.v (generic monitor semantics) and coq/C20_Model.v, C20_Proofs.v, Gen_C20.v (calendar) are imported read-only",
                 "stdio/filesystem: fwrite_unlocked/fflush/fclose hand the bytes to the OS in order; 'on disk' = handed to the OS (no fsync); O_APPEND",
                 "sequential consistency of the std::atomic<bool> running_ and of pthread mutexes; std::vector/unique_ptr")
 
